@@ -20,7 +20,8 @@ instance (c : StageCfg) (r : Nat) : Decidable (dftOutOK c r) := by
 def StageWF (c : StageCfg) (s : StageSt) : Prop :=
   match c.kind with
   | .half => 1 ≤ c.prePost ∧ c.prePost < s.isz
-  | .clocked => 0 < c.den ∧ 0 < c.step ∧ s.clk < c.den ∧ c.prePost < s.isz ∧ c.step ≤ (c.prePost + 1) * c.den
+  | .clocked => 0 < c.den ∧ 0 < c.step ∧ s.clk < c.den ∧ c.prePost < s.isz ∧ c.step ≤ (c.prePost + 1) * c.den ∧
+      c.taps ≤ c.prePost + 1
   | .dft => 0 < c.L ∧ 1 ≤ c.numTaps ∧ c.numTaps ≤ c.dftLen ∧ s.clk < c.L ∧ c.L ≤ c.dftLen - (c.numTaps - 1) ∧
       s.isz = (c.dftLen - s.clk + c.L - 1) / c.L ∧ dftOutOK c s.remM
 
